@@ -452,10 +452,13 @@ def have_strace() -> bool:
     return shutil.which('strace') is not None
 
 
-def parse_strace(path: str, B: str) -> T.List[T.Tuple[str, str]]:
-    """sequence of (kind, relative path) of mutating syscalls on paths inside B (outside meson-logs)"""
+def parse_strace(path: str, B: str) -> T.Tuple[T.List[T.Tuple[str, str]], T.List[str]]:
+    """(sequence of (kind, relative path) of mutating syscalls issued by the meson process itself - the first
+    pid of the trace - on paths inside B outside meson-logs, sorted set of paths mutated by its children)"""
     pending: T.Dict[str, str] = {}
     out: T.List[T.Tuple[str, str]] = []
+    main_pid: T.Optional[str] = None
+    child_paths: T.Set[str] = set()
 
     def rel(p: str) -> T.Optional[str]:
         p = os.path.normpath(p)
@@ -479,6 +482,8 @@ def parse_strace(path: str, B: str) -> T.List[T.Tuple[str, str]]:
             if not m:
                 continue
             pid, rest = m.group(1), m.group(2)
+            if main_pid is None:
+                main_pid = pid
             if rest.endswith('<unfinished ...>'):
                 pending[pid] = rest[:-len('<unfinished ...>')]
                 continue
@@ -530,8 +535,11 @@ def parse_strace(path: str, B: str) -> T.List[T.Tuple[str, str]]:
                 continue
             r = rel(target)
             if r is not None:
-                out.append((kind, r))
-    return out
+                if pid == main_pid:
+                    out.append((kind, r))
+                else:
+                    child_paths.add(r)
+    return out, sorted(child_paths)
 
 
 def strace_compare(M: T.List[list], st: T.List[T.Tuple[str, str]]) -> T.Optional[str]:
@@ -554,6 +562,7 @@ def prepare(case: dict, root: str, pyc: str, inproc: bool, with_strace: bool) ->
     log = os.path.join(root, 'count.log')
     args = site.xargs()
     strace_note = None
+    child_paths: T.List[str] = []
     if with_strace and have_strace():
         stf = os.path.join(root, 'strace.txt')
         env = mesondrv.base_env(shim_env(site.B, log))
@@ -563,7 +572,8 @@ def prepare(case: dict, root: str, pyc: str, inproc: bool, with_strace: bool) ->
                            cwd=root, env=env, stdout=subprocess.PIPE, stderr=subprocess.PIPE, stdin=subprocess.DEVNULL, timeout=600)
         r = mesondrv.Result(p.returncode, p.stdout.decode('utf-8', 'replace'), p.stderr.decode('utf-8', 'replace'))
         if os.path.exists(stf) and os.path.getsize(stf) > 0:
-            strace_note = strace_compare(read_mlist(log), parse_strace(stf, site.B)) or 'agree'
+            st_ops, child_paths = parse_strace(stf, site.B)
+            strace_note = strace_compare(read_mlist(log), st_ops) or 'agree'
         else:
             strace_note = 'strace produced no output (ptrace not permitted?)'
     else:
@@ -577,6 +587,7 @@ def prepare(case: dict, root: str, pyc: str, inproc: bool, with_strace: bool) ->
     if post is None:
         raise HarnessError(f'introspect after the completed X failed: {ri!r}')
     post_digest = digest(site.B, site.root)
+    child_paths = sorted({_TMPNAME.sub('tmp*', c) for c in child_paths})
     if pre is None:
         # unconfigured before X: "value from before" = what the prescribed follow-up alone yields
         site.reset()
@@ -588,7 +599,8 @@ def prepare(case: dict, root: str, pyc: str, inproc: bool, with_strace: bool) ->
     for name, val in case['x'][1].items():
         if name not in post or str(post[name]).lower() != str(val).lower():
             notes.append(f'completed X did not yield the requested value for {name}: {post.get(name)!r} vs {val!r}')
-    return {'M': M, 'pre': pre, 'post': post, 'post_digest': post_digest, 'strace': strace_note, 'notes': notes}
+    return {'M': M, 'pre': pre, 'post': post, 'post_digest': post_digest, 'strace': strace_note, 'notes': notes,
+            'child_paths': child_paths}
 
 
 def _prep_shard(shard: T.Tuple[int, dict, str, str, str], ev: Evidence, fails: T.List[Failure]) -> None:
@@ -770,6 +782,7 @@ def run(ctx: Ctx) -> None:
         with open(o, encoding='utf-8') as f:
             preps.append(json.load(f))
     strace_state: T.Dict[str, int] = {}
+    child_written: T.Dict[str, int] = {}
     per_case = []
     total = 0
     all_pts = []
@@ -778,6 +791,8 @@ def run(ctx: Ctx) -> None:
         strace_state['agree' if st == 'agree' else st] = strace_state.get('agree' if st == 'agree' else st, 0) + 1
         for n in p['notes']:
             ctx.note(f'case {i}: {n}')
+        for cp in p.get('child_paths', []):
+            child_written[cp] = child_written.get(cp, 0) + 1
         pts = points_of(p['M'], ctx.ev)
         all_pts.append(pts)
         total += len(pts)
@@ -818,6 +833,7 @@ def run(ctx: Ctx) -> None:
     ctx.ev.extra['cases'] = per_case
     ctx.ev.extra['kill_points_total'] = total
     ctx.ev.extra['strace_crosscheck'] = strace_state
+    ctx.ev.extra['paths_written_by_child_processes_not_kill_points'] = child_written
     ctx.ev.extra['exhaustive_scope'] = ('for each listed (history, X) every mutation index k of X is killed (before-variant) and every write '
                                         '>= 2 bytes is additionally torn; the histories themselves are sampled from the seed')
 
